@@ -36,6 +36,7 @@
 #include <unicode/ucnv_err.h>
 #include <unicode/ustring.h>
 #include <unicode/udata.h>
+#include <xercesc/util/VerifHooks.hpp>
 #if (U_ICU_VERSION_MAJOR_NUM >= 2)
     #include <unicode/uclean.h>
 #endif
@@ -823,6 +824,7 @@ XMLSize_t ICULCPTranscoder::calcRequiredSize(const XMLCh* const srcText
                 , -1
                 , &err
             );
+            VERIF_EVS("Acc", "lcp_use", "obj,c,rw,val", (long long)this, 0, 1, 0);
         }
     }
     else
@@ -844,6 +846,7 @@ XMLSize_t ICULCPTranscoder::calcRequiredSize(const XMLCh* const srcText
                 , -1
                 , &err
             );
+            VERIF_EVS("Acc", "lcp_use", "obj,c,rw,val", (long long)this, 0, 1, 0);
         }
     }
 
@@ -874,6 +877,7 @@ XMLSize_t ICULCPTranscoder::calcRequiredSize(const char* const srcText
             , (int32_t)strlen(srcText)
             , &err
         );
+        VERIF_EVS("Acc", "lcp_use", "obj,c,rw,val", (long long)this, 0, 1, 0);
     }
 
     if (err != U_BUFFER_OVERFLOW_ERROR)
@@ -956,6 +960,7 @@ char* ICULCPTranscoder::transcode(const XMLCh* const toTranscode,
             , -1
             , &err
         );
+        VERIF_EVS("Acc", "lcp_use", "obj,c,rw,val", (long long)this, 0, 1, 0);
     }
 
     // If targetLen is not enough then buffer overflow might occur
@@ -980,6 +985,7 @@ char* ICULCPTranscoder::transcode(const XMLCh* const toTranscode,
             , -1
             , &err
         );
+        VERIF_EVS("Acc", "lcp_use", "obj,c,rw,val", (long long)this, 0, 1, 0);
     }
 
     if (U_FAILURE(err))
@@ -1035,6 +1041,7 @@ XMLCh* ICULCPTranscoder::transcode(const char* const toTranscode,
             , srcLen
             , &err
         );
+        VERIF_EVS("Acc", "lcp_use", "obj,c,rw,val", (long long)this, 0, 1, 0);
 
         if (err != U_BUFFER_OVERFLOW_ERROR)
             return 0;
@@ -1131,6 +1138,7 @@ bool ICULCPTranscoder::transcode(const  char* const     toTranscode
             , (int32_t)srcLen
             , &err
         );
+        VERIF_EVS("Acc", "lcp_use", "obj,c,rw,val", (long long)this, 0, 1, 0);
     }
 
     if (U_FAILURE(err))
@@ -1212,6 +1220,7 @@ bool ICULCPTranscoder::transcode(   const   XMLCh* const    toTranscode
             , -1
             , &err
         );
+        VERIF_EVS("Acc", "lcp_use", "obj,c,rw,val", (long long)this, 0, 1, 0);
     }
 
     if (U_FAILURE(err))
